@@ -31,6 +31,24 @@ pub struct Unit {
     /// completers sit above optional / many / fallback instead of on the primitive
     #[serde(default)]
     pub completer_outer: bool,
+    /// positionals (and valued items without a completer) carry `complete_shell(File)`: names
+    /// collected before them must survive when the decorated item itself is absent
+    #[serde(default)]
+    pub shell_deco: bool,
+}
+
+fn add_shell(p: &mut P) {
+    match p {
+        P::Pos { .. } | P::Arg { .. } => {
+            let me = p.clone();
+            *p = P::CompleteShell(me.bx(), ShellK::File(None));
+        }
+        P::Cmd { inner, .. } => add_shell(&mut inner.p),
+        P::Seq(v) | P::Alt(v) | P::Choice(v) | P::Adj(v) => v.iter_mut().for_each(add_shell),
+        P::Complete(..) => {}
+        P::Optional(x, _) | P::Many(x, _) | P::Some_(x, _) | P::Collect(x, _) | P::Count(x) | P::Last(x) | P::Fallback(x, _, _) | P::FallbackWith(x, _) | P::Hide(x) => add_shell(x),
+        _ => {}
+    }
 }
 
 fn decorate(p: &mut P, decor: u8, hidden_cmds: &[String]) {
@@ -94,6 +112,9 @@ fn add_completers(p: &mut P, which: &[String], outer: bool) {
 pub fn build_unit(u: &Unit) -> Opts {
     let mut o = u.level.to_opts();
     add_completers(&mut o.p, &u.completers, u.completer_outer);
+    if u.shell_deco {
+        add_shell(&mut o.p);
+    }
     if u.decor != 0 || !u.hidden_cmds.is_empty() {
         decorate(&mut o.p, u.decor, &u.hidden_cmds);
     }
@@ -128,6 +149,22 @@ pub struct Rows {
 /// parse the revision-0 text
 pub fn parse_rows(text: &str, typed: &str) -> Rows {
     let mut r = Rows::default();
+    // requested shell completers follow the rows after an empty line (`File { mask: None }`):
+    // they are C15's business, not candidates
+    let text: String = match text.find("\n\n") {
+        Some(i) if text[i + 2..].lines().all(|l| l.starts_with("File {") || l.starts_with("Dir {") || l.starts_with("Raw {") || l == "Nothing") => text[..i + 1].to_string(),
+        _ => {
+            if text.lines().all(|l| l.is_empty() || l.starts_with("File {") || l.starts_with("Dir {") || l.starts_with("Raw {") || l == "Nothing") && text.contains(" {") {
+                String::new()
+            } else {
+                text.to_string()
+            }
+        }
+    };
+    let text = text.as_str();
+    if text.is_empty() {
+        return r;
+    }
     if !text.contains('\t') {
         let t = text.trim_end_matches('\n');
         if text.ends_with('\n') && t == typed {
@@ -457,6 +494,64 @@ pub fn judge(u: &Unit, unit: &Value, p: &bpaf::OptionParser<Val>, argv: &[Tok], 
 
 const TYPED: [&str; 18] = ["", "-", "--", "--a", "--al", "--alpha", "--b", "-a", "-b", "c", "cm", "cmd", "o", "v", "--e", "-e", "--alpha=", "--alpha=v"];
 
+// ------------------------------------------------------------------------------------------
+// a choice between a positional and a named item (`FILE | --list`), at the top level behind a
+// switch and inside a sub-command: the name must be offered on a fresh item wherever the choice
+// is evaluated
+// ------------------------------------------------------------------------------------------
+fn altpos_opts(in_cmd: bool) -> Opts {
+    let choice = P::Alt(vec![P::Map(P::Pos { ty: Ty::Str, strict: Strict::Any, metavar: "FILE".into(), help: None }.bx(), "f".into()), P::Map(P::ReqFlag(Names::long("list")).bx(), "l".into())]);
+    let level = Opts::new(P::Seq(vec![P::Switch(Names::both('v', "verbose")), choice]));
+    if in_cmd {
+        Opts::new(P::Seq(vec![P::Switch(Names::short('q')), P::cmd("show", level)]))
+    } else {
+        level
+    }
+}
+
+fn run_altpos(in_cmd: bool, unit: &Value, only: Option<&[Tok]>, ctx: &mut Ctx) {
+    let p = match build_checked(&altpos_opts(in_cmd)) {
+        Ok(p) => p,
+        Err(_) => return,
+    };
+    let pres: Vec<Vec<&str>> = if in_cmd { vec![vec!["show"], vec!["show", "-v"], vec!["-q", "show"], vec!["show", "--verbose"]] } else { vec![vec![], vec!["-v"], vec!["--verbose"]] };
+    for pre in pres {
+        for typed in ["", "-", "--", "--l", "--li", "--list"] {
+            let mut argv: Vec<Tok> = pre.iter().map(|s| Tok::s(s)).collect();
+            argv.push(Tok::s(typed));
+            if let Some(o) = only {
+                if o != argv.as_slice() {
+                    continue;
+                }
+            }
+            ctx.begin_case(|| json!({"argv": argv}));
+            ctx.s.evaluations += 1;
+            ctx.s.states += 1;
+            let text = match run_comp(&p, &argv, 0, None) {
+                Outcome::Completion(t) => t,
+                o => {
+                    let mut sig = BTreeMap::new();
+                    sig.insert("clause".to_string(), "always-completion-output".to_string());
+                    ctx.violation(Violation { property: "C14".into(), rule: "always-completion-output".into(), sig, unit: unit.clone(), case: json!({"argv": argv}), expected: "completion output".into(), observed: o.brief(), size: argv.len() * 1000 });
+                    continue;
+                }
+            };
+            let rows = parse_rows(&text, typed);
+            // `--list` typed in full is echoed or offered; every shorter prefix must offer it
+            if rows.substs.iter().any(|s| s == "--list") || (typed == "--list" && (rows.echo_only || rows.substs.is_empty())) {
+                ctx.count("choice-of-positional-and-name-judged");
+                ctx.s.nontrivial += 1;
+                ctx.s.validated += 1;
+            } else {
+                let mut sig = BTreeMap::new();
+                sig.insert("clause".to_string(), "every-applicable-visible-name-offered".to_string());
+                sig.insert("def".to_string(), if in_cmd { "[FILE | --list] inside a command" } else { "[FILE | --list] behind a switch" }.to_string());
+                ctx.violation(Violation { property: "C14".into(), rule: "every-applicable-visible-name-offered".into(), sig, unit: unit.clone(), case: json!({"argv": argv}), expected: "--list offered (visible, matches, not given)".into(), observed: text.chars().take(300).collect(), size: argv.len() * 1000 });
+            }
+        }
+    }
+}
+
 impl Check for C14 {
     fn id(&self) -> &'static str {
         "C14"
@@ -490,19 +585,25 @@ impl Check for C14 {
                 Tail::Cmds { cmds, .. } if j % 5 == 0 => vec![cmds[(j / 5) % cmds.len()].name.clone()],
                 _ => vec![],
             };
-            out.push(serde_json::to_value(Unit { level: l, len: tier.pick(2, 3), completers, fallback_with: j % 4 == 1, decor: if j % 4 == 2 { 0 } else { (j % 3) as u8 }, hidden_cmds, completer_outer: j % 4 == 2 }).unwrap());
+            out.push(serde_json::to_value(Unit { level: l, len: tier.pick(2, 3), completers, fallback_with: j % 4 == 1, decor: if j % 4 == 2 { 0 } else { (j % 3) as u8 }, hidden_cmds, completer_outer: j % 4 == 2, shell_deco: j % 6 == 1 }).unwrap());
         }
         // non-ASCII short and long names
         for k1 in [Kind::Switch, Kind::ArgOpt, Kind::Count] {
             for k2 in [Kind::ArgReq, Kind::ReqFlag] {
                 let a = Named { names: Names::both('ä', "änderung"), kind: k1, hidden: false, ty: Ty::Os, adjacent: false, guarded: false };
                 let b = Named { names: Names::short('ß'), kind: k2, hidden: false, ty: Ty::Os, adjacent: false, guarded: false };
-                out.push(serde_json::to_value(Unit { level: fam::leaf(vec![a, b], Tail::None), len: tier.pick(2, 3), completers: vec![], fallback_with: false, decor: 0, hidden_cmds: vec![], completer_outer: false }).unwrap());
+                out.push(serde_json::to_value(Unit { level: fam::leaf(vec![a, b], Tail::None), len: tier.pick(2, 3), completers: vec![], fallback_with: false, decor: 0, hidden_cmds: vec![], completer_outer: false, shell_deco: false }).unwrap());
             }
         }
+        out.push(json!({"altpos": false}));
+        out.push(json!({"altpos": true}));
         out
     }
     fn run_unit(&self, unit: &Value, ctx: &mut Ctx) {
+        if let Some(b) = unit.get("altpos") {
+            run_altpos(b.as_bool() == Some(true), unit, None, ctx);
+            return;
+        }
         let u: Unit = serde_json::from_value(unit.clone()).unwrap();
         let p = match build_checked(&build_unit(&u)) {
             Ok(p) => p,
@@ -558,6 +659,11 @@ impl Check for C14 {
         });
     }
     fn replay(&self, unit: &Value, case: &Value, ctx: &mut Ctx) {
+        if let Some(b) = unit.get("altpos") {
+            let argv: Vec<Tok> = serde_json::from_value(case["argv"].clone()).unwrap_or_default();
+            run_altpos(b.as_bool() == Some(true), unit, Some(&argv), ctx);
+            return;
+        }
         let u: Unit = serde_json::from_value(unit.clone()).unwrap();
         let argv: Vec<Tok> = serde_json::from_value(case["argv"].clone()).unwrap_or_default();
         if let Ok(p) = build_checked(&build_unit(&u)) {
@@ -566,7 +672,7 @@ impl Check for C14 {
         }
     }
     fn rule(&self) -> String {
-        "definitions = conventional levels (<=2 named items of all 10 kinds, naming styles incl. aliases; tails none / positionals / command trees of depth 3 with aliases, optional and defaulted choices); every third definition hides its first item, every fourth writes its defaults with fallback_with, every fifth wraps one of its sub-commands in hide(), repeated items are written many() / some(msg).optional() / many().catch() in rotation (optional items with and without catch()), a few use non-ASCII names, every second attaches an echoing completer (input+\"1\", input+\"2\") to every argument - half of them on the primitive, half above its optional / many / fallback wrapper; inputs = every vector of the token tree (incl. a non-UTF-8 word) as the already typed part x every typed last word from {empty, -, --, every prefix of every long name, every short name, --name=, --name=pre, command prefixes, plain words}; revision 0 through set_comp and (for short lines) through the --bpaf-complete-rev=0 marker; (a) the outcome is completion output for every line; (b) every candidate is the preferred spelling of a visible matching name of the active or an enclosing level, a value of the completer of the item being typed, or a metavariable placeholder - never a hidden item or a name below a command not entered; (c) on a fresh prefix every visible name of the active level that extends it and is not already given (single-use) is offered, commands when no word precedes, completer values for the item being typed; the active level / given set / pending value come from a reference scan of the typed part; right of `--` no option or command name may be offered whatever was typed; lines the scan cannot classify (unknown names, clusters, separator) are only held to (a); state = (definition, line)".into()
+        "definitions = conventional levels (<=2 named items of all 10 kinds, naming styles incl. aliases; tails none / positionals / command trees of depth 3 with aliases, optional and defaulted choices); every third definition hides its first item, every fourth writes its defaults with fallback_with, every fifth wraps one of its sub-commands in hide(), repeated items are written many() / some(msg).optional() / many().catch() in rotation (optional items with and without catch()), a few use non-ASCII names, every second attaches an echoing completer (input+\"1\", input+\"2\") to every argument - half of them on the primitive, half above its optional / many / fallback wrapper; inputs = every vector of the token tree (incl. a non-UTF-8 word) as the already typed part x every typed last word from {empty, -, --, every prefix of every long name, every short name, --name=, --name=pre, command prefixes, plain words}; revision 0 through set_comp and (for short lines) through the --bpaf-complete-rev=0 marker; (a) the outcome is completion output for every line; (b) every candidate is the preferred spelling of a visible matching name of the active or an enclosing level, a value of the completer of the item being typed, or a metavariable placeholder - never a hidden item or a name below a command not entered; (c) on a fresh prefix every visible name of the active level that extends it and is not already given (single-use) is offered, commands when no word precedes, completer values for the item being typed; the active level / given set / pending value come from a reference scan of the typed part; right of `--` no option or command name may be offered whatever was typed; a choice between a positional and a named item (FILE | --list) behind a switch and inside a command must offer the name on every fresh prefix of it; lines the scan cannot classify (unknown names, clusters, separator) are only held to (a); state = (definition, line)".into()
     }
     fn bounds(&self, tier: Tier) -> Value {
         json!({"typed_part_length": tier.pick(2, 3), "typed_words": "18 fixed + all prefixes of all names"})
